@@ -31,6 +31,10 @@ type Chunk struct {
 	Salt int  `json:"salt,omitempty"`
 	// Flush: the writer is flushed after this chunk (Response.Flush / http.Flusher)
 	Flush bool `json:"flush,omitempty"`
+	// Str: written with io.WriteString (which prefers the writer's own WriteString, if it has one)
+	Str bool `json:"str,omitempty"`
+	// Raw: a route function writes this chunk on resp.ResponseWriter, the writer underneath the Response
+	Raw bool `json:"raw,omitempty"`
 }
 
 func (c Chunk) bytes() []byte {
@@ -77,6 +81,9 @@ type C07Case struct {
 	// NoFlusher: the writer the container is given implements nothing but http.ResponseWriter
 	// (a Flush requested by a handler or filter then has nobody to go to)
 	NoFlusher bool `json:"no_flusher,omitempty"`
+	// ReuseBuilder: the RouteBuilder of the target route is used again afterwards for another
+	// route with the opposite encoding setting (a built route keeps its own setting)
+	ReuseBuilder bool `json:"reuse_builder,omitempty"`
 }
 
 // bareWriter hides every optional interface of the recorder.
@@ -96,7 +103,7 @@ func genChunks(t *rapid.T, label string, max int) []Chunk {
 	}
 	var out []Chunk
 	for i := 0; i < n; i++ {
-		out = append(out, Chunk{Size: rapid.SampledFrom(sizes).Draw(t, label+"size"), Rand: rapid.Bool().Draw(t, label+"rand"), Salt: rapid.IntRange(0, 999).Draw(t, label+"salt"), Flush: rapid.IntRange(0, 4).Draw(t, label+"flush") == 0})
+		out = append(out, Chunk{Size: rapid.SampledFrom(sizes).Draw(t, label+"size"), Rand: rapid.Bool().Draw(t, label+"rand"), Salt: rapid.IntRange(0, 999).Draw(t, label+"salt"), Flush: rapid.IntRange(0, 4).Draw(t, label+"flush") == 0, Str: rapid.IntRange(0, 3).Draw(t, label+"str") == 0, Raw: rapid.IntRange(0, 7).Draw(t, label+"raw") == 0})
 	}
 	return out
 }
@@ -138,6 +145,7 @@ func genC07(t *rapid.T) C07Case {
 	c.RecChunks = genChunks(t, "rec", 2)
 	c.FlipAfter = rapid.IntRange(0, 3).Draw(t, "flipafter") == 0
 	c.NoFlusher = rapid.IntRange(0, 4).Draw(t, "noflusher") == 0
+	c.ReuseBuilder = rapid.IntRange(0, 3).Draw(t, "reusebuilder") == 0
 	return c
 }
 
@@ -148,7 +156,15 @@ type c07run struct {
 func (r *c07run) write(w io.Writer, chunks []Chunk) {
 	for _, ch := range chunks {
 		b := ch.bytes()
-		n, _ := w.Write(b)
+		if resp, ok := w.(*restful.Response); ok && ch.Raw {
+			w = resp.ResponseWriter
+		}
+		var n int
+		if ch.Str {
+			n, _ = io.WriteString(w, string(b))
+		} else {
+			n, _ = w.Write(b)
+		}
 		if n > 0 {
 			r.written.Write(b[:n])
 		}
@@ -213,6 +229,9 @@ func checkC07(c C07Case) (vs []*Violation) {
 				panic("generated panic")
 			}
 		}))
+		if c.ReuseBuilder {
+			ws.Route(rb.Path("/decoy").ContentEncodingEnabled(c.RouteEnc != "on").To(func(req *restful.Request, resp *restful.Response) {}))
+		}
 		ct.Add(ws)
 	}
 	plain := http.HandlerFunc(func(w http.ResponseWriter, r *http.Request) { run.write(w, c.Handler) })
